@@ -138,8 +138,8 @@ def repo_test_traces(chk, tier, base_id=9000000):
     import json, os, subprocess, sys
     out = os.path.join(chk.wd, "repo_tests_traces.json")
     files = ["PyXAB/tests/test_algos"] if tier != "quick" else ["PyXAB/tests/test_algos/test_%s.py" % a for a in ("HOO", "SOO", "DOO", "Zooming", "SequOOL", "StoSOO", "POO")]
-    env = dict(os.environ, PYXAB_VERIF_TRACE="1", PYXAB_VERIF_TRACE_OUT=out, PYTHONPATH="/verif:/repo", PYXAB_VERIF_TRACE_MAXCALLS="200" if tier == "quick" else "600")
-    p = subprocess.run([sys.executable, "-m", "pytest", "-q", "-x", "-p", "no:cacheprovider", "-p", "harness.pytest_trace_plugin"] + files, cwd="/repo", env=env, stdout=subprocess.PIPE, stderr=subprocess.STDOUT, text=True, timeout=3000)
+    env = dict(os.environ, PYXAB_VERIF_TRACE="1", PYXAB_VERIF_TRACE_OUT=out, PYTHONPATH="/verif:" + C.REPO, PYXAB_VERIF_TRACE_MAXCALLS="200" if tier == "quick" else "600")
+    p = subprocess.run([sys.executable, "-m", "pytest", "-q", "-x", "-p", "no:cacheprovider", "-p", "harness.pytest_trace_plugin"] + files, cwd=C.REPO, env=env, stdout=subprocess.PIPE, stderr=subprocess.STDOUT, text=True, timeout=3000)
     if not os.path.exists(out):
         raise C.Machinery("repository tests under the trace plugin produced no traces: " + p.stdout[-1500:])
     trs = json.load(open(out))
